@@ -109,7 +109,7 @@ def run(tier, seed):
     chk.add("traces_validated_against_impl", len(segs) - len(problems))
     chk.cov["evaluations"] = nmem; chk.cov["distinct_nontrivial"] = len(cases)
     chk.cov["members_checked"] = sorted({e["member"] for e in trace if e["e"] == "xml"})
-    chk.cov["rule"] = "cases = 16 text slots x {& < > \" ' and a plain letter as twin} + slots x %d delimiter fragments + 4 composite documents (metadata keys/values, URLs, titles, notes); each x {opml, fodt, itmz, odt, epub} (quick: packages for a third of the cases) x 3 extension sets rotating; every XML member parsed by expat" % len(FRAGS)
+    chk.cov["rule"] = "cases = 24 text slots x {& < > \" ' and a plain letter as twin} + slots x %d delimiter fragments + 4 composite documents (metadata keys/values, URLs, titles, notes); each x {opml, fodt, itmz, odt, epub} (quick: packages for a third of the cases) x 3 extension sets rotating; every XML member parsed by expat" % len(FRAGS)
     chk.sample(dict(src=cases[3][0].decode(), label=cases[3][2])); chk.sample(dict(src=cases[-2][0].decode()[:200], label=cases[-2][2]))
     seen = {}
     for seg, idx in rejected:
